@@ -222,6 +222,10 @@ fn interface_name<'a>(input: &mut &'a [u8]) -> ModalResult<&'a str, InputError<&
     while pos < input.len() && (input[pos].is_ascii_alphanumeric() || input[pos] == b'-') {
         pos += 1;
     }
+    // A segment does not end with a dash.
+    while input[pos - 1] == b'-' {
+        pos -= 1;
+    }
 
     let mut found_dot = false;
     // Subsequent segments: .[A-Za-z0-9]([-]*[A-Za-z0-9])*
@@ -238,6 +242,10 @@ fn interface_name<'a>(input: &mut &'a [u8]) -> ModalResult<&'a str, InputError<&
         // Continue with alphanumeric and dashes
         while pos < input.len() && (input[pos].is_ascii_alphanumeric() || input[pos] == b'-') {
             pos += 1;
+        }
+        // A segment does not end with a dash.
+        while input[pos - 1] == b'-' {
+            pos -= 1;
         }
     }
 
